@@ -104,19 +104,23 @@ def nodupInt : List Int → Bool
   | [] => true
   | x :: xs => !xs.contains x && nodupInt xs
 
+def dayKey (tm : Timing) : Int :=
+  match tm with
+  | .minutely _ | .hourly _ | .daily _ => timeKey tm
+  | _ => 0
+
+def weekKey (tz : Option Int) (tm : Timing) : Int :=
+  match tm with
+  | .weekly wd t => weekdayKey tz wd t
+  | _ => 0
+
 /-- `check_duplicate_effective_timings` — `true` = accepted -/
 def uniqueOk (tz : Option Int) (l : List Timing) : Bool :=
   match l with
   | [] => true
   | .cyclic _ :: _ => true
-  | .weekly _ _ :: _ =>
-      nodupInt (l.map (fun tm => match tm with
-        | .weekly wd t => weekdayKey tz wd t
-        | _ => 0))
-  | _ =>
-      nodupInt (l.map (fun tm => match tm with
-        | .minutely _ | .hourly _ | .daily _ => timeKey tm
-        | _ => 0))
+  | .weekly _ _ :: _ => nodupInt (l.map (weekKey tz))
+  | _ => nodupInt (l.map dayKey)
 
 /-- the clock reading `datetime.now(tz)` for a clock instant -/
 def nowDT (tz : Option Int) (clock : Int) : DT :=
